@@ -6,6 +6,7 @@ import (
 	"crypto/elliptic"
 	"fmt"
 	"math/big"
+	"strings"
 
 	"github.com/ldclabs/cose/iana"
 	"github.com/ldclabs/cose/key"
@@ -302,11 +303,25 @@ func streamEcdh(c *ctx) {
 				} else if err == nil {
 					fail("ecdh-invalid", "ECDH returned a secret for an invalid remote key ("+what+")", line+"|"+describe(r), fmt.Sprintf("%x", s), "an error")
 				}
-				if what != "private" { // KeyToPublic derives the public key of a private key; ECDH refuses it before
+				if !strings.HasPrefix(what, "private") { // KeyToPublic derives the public key of a private key; ECDH refuses it before
 					remotePoint(r, "invalid-"+what)
 				}
 			}
 			bad(kb, "private")
+			// a private key that also carries its public coordinates (as RFC 9053 recommends for private keys), in every
+			// public form: still a private key, still refused
+			for name, pk := range fb {
+				if pk == nil {
+					continue
+				}
+				kp := cloneKey(kb)
+				for _, l := range []int{iana.EC2KeyParameterX, iana.EC2KeyParameterY} {
+					if v, ok := pk[l]; ok {
+						kp[l] = v
+					}
+				}
+				bad(kp, "private-with-coordinates-"+name)
+			}
 			other := dhCurves[(dc.crv)%4] // the next curve
 			if ko, err := ecdh.GenerateKey(other.crv); err == nil {
 				if pko, err := ecdh.ToPublicKey(ko); err == nil {
